@@ -87,6 +87,19 @@ def run(ctx):
                    ("" if from_slot else ": not read back from the slot - a thread that loses the race to fill the slot keeps working on an orphan no writer or sibling ever sees"))
     if n_w == 0:
         ctx.missing("R9.single-install-door", "calls of the closure parameter in GlobalState::with_regional_state (region_cached / region_local)")
+    # which region a thread is served from is decided from the thread's PIN (or re-resolved per access), never from the default
+    # processor set: `SystemHardware::processors()` is limited by the processor-time QUOTA, not by where the thread can run
+    offenders = []
+    for b in prog.bodies:
+        if "::tests" in b.key or b.crate not in ("region_cached", "region_local"):
+            continue
+        for bb, t in b.calls():
+            k = callee_key(t["callee"])
+            if not b.blocks[bb].cleanup and (k.endswith("SystemHardware::processors") or k.endswith("SystemHardware::all_processors")):
+                offenders.append(f"{short(b.key)} at {b.loc(t['span'])}")
+    ctx.ob("R5.per-thread-region-resolution", "no-region-decision-from-the-default-processor-set", not offenders, "",
+           f"uses of SystemHardware::processors()/all_processors() in the region crates: {offenders or 'none'}" +
+           ("" if not offenders else " - a quota-limited set that happens to lie in one region says nothing about the regions an unpinned thread may move to: it would cache a foreign region for good"))
     sg = prog.one("region_cached::RegionCached::set_global")
     if sg is None:
         ctx.missing("R1.publish-then-invalidate", "RegionCached::set_global")
@@ -277,7 +290,7 @@ def invalidate_and_generation_rules(ctx, prog):
                 if adt.endswith("GenerationValue") and "generation" in names:
                     c = resolve_const(new, st["rv"]["ops"][names.index("generation")])
                     gen0 = c.get("val") if c else None
-                if adt.endswith("GlobalState") and "next_generation" in names:
+                if "next_generation" in names:   # (on GlobalState itself, or on a private struct grouping its publication state)
                     sl = Slice(new).run(st["rv"]["ops"][names.index("next_generation")])
                     vs = [c.get("val") for c in sl["consts"] if "val" in c]
                     news = [k for k, _b, _t in sl["calls"] if k.endswith("::new")]
